@@ -105,7 +105,10 @@ VALID_TRICKY = [
 
 def lib_errors(schema, doc):
     from py_gql.validation import validate_ast
-    return list(validate_ast(schema, doc).errors)
+    try:
+        return list(validate_ast(schema, doc).errors)
+    except Exception as e:      # a crashing validator (C05's subject) counts as "not accepted" here; the verdict comparison still runs
+        return [e]
 
 
 def transforms(doc, rnd):
